@@ -141,6 +141,10 @@ func (m *DefaultInterfaceMocker) Return(value ...interface{}) *When {
 		when *When
 		err  error
 	)
+	if value == nil {
+		// Return() 不带任何值: 仍然需要检查返回值个数
+		value = []interface{}{}
+	}
 	if when, err = CreateWhen(m, m.funcDef, nil, value, true); err != nil {
 		panic(err)
 	}
